@@ -4,7 +4,7 @@
    check and spill flag run between two reads, as the generator protocol
    interleaves them).  Streams: model/Stream.v; results: bres of model/Body.v.
    No proofs in this file.  Owned by cluster bodyA. *)
-From Verif Require Import lib.Base lib.Str lib.PyIntHex model.Stream model.Body.
+From Verif Require Import lib.Base lib.Str lib.PyIntHex lib.PyIntParse model.Stream model.Body.
 
 (* The size-line scanner, body_mixin.py:40-58
      read_len = 0; seen_r = seen_sem = False
@@ -129,6 +129,24 @@ Definition body_read_env (s : stream) (buf : nat) (maxb : option nat) (cl : Z) (
   if te_chunked te then body_read_chunked s buf maxb
   else body_read_cl s buf maxb cl.
 
+(* BodyMixin.content_length (body_mixin.py:112): int(environ.get('CONTENT_LENGTH') or -1) on the RAW header
+   value (None = key absent).  None = int() raises ValueError, which is not a RequestError: it escapes _body
+   as a 500 whatever the transfer coding (finding C12-content-length-not-int; also a C05 finding). *)
+Definition content_length_raw (raw : option (list N)) : option Z :=
+  match raw with
+  | None => Some (-1)%Z
+  | Some [] => Some (-1)%Z
+  | Some x => py_int_dec x
+  end.
+
+(* Request.body from the raw framing headers; None = the ValueError above *)
+Definition body_read_raw (s : stream) (buf : nat) (maxb : option nat) (clraw : option (list N)) (te : list N)
+  : option bres :=
+  match content_length_raw clraw with
+  | None => None
+  | Some cl => Some (body_read_env s buf maxb cl te)
+  end.
+
 (* ---- the specification side: legal chunked encodings ---- *)
 
 Definition CRLF : list N := [13; 10]%N.
@@ -176,10 +194,22 @@ Definition payload_of (cs : list chunk) : list N := flat_map c_data cs.
 
 (* ---- correspondence interface ---- *)
 
+(* sub-inputs of a sequence: each one length-prefixed *)
+Fixpoint dec_subs (fuel : nat) (l : list Z) : list (list Z) :=
+  match fuel with
+  | O => []
+  | S f =>
+    match l with
+    | [] => []
+    | n :: r => let k := Z.to_nat n in firstn k r :: dec_subs f (skipn k r)
+    end
+  end.
+
 (* input: 0 ; buf ; has_max ; max ; data (len-prefixed) ; sched (len-prefixed)   -> bres
           1 ; bytes (len-prefixed)                                               -> int(b.strip(),16)
-          2 ; cl ; buf ; has_max ; max ; te ; data ; sched                       -> bres through the _body glue *)
-Definition corr_C05 (inp : list Z) : list Z :=
+          2 ; has_cl ; buf ; has_max ; max ; cl_raw ; te ; data ; sched          -> bres through the _body glue
+                                                                                    ([8]: int(CONTENT_LENGTH) raises) *)
+Definition corr_C05_one (inp : list Z) : list Z :=
   match inp with
   | 0%Z :: buf :: hm :: mx :: r =>
     match dec_str r with
@@ -197,20 +227,37 @@ Definition corr_C05 (inp : list Z) : list Z :=
     | Some (b, _) => enc_option (fun z => [z]) (py_int_hex b)
     | None => bad_input
     end
-  | 2%Z :: cl :: buf :: hm :: mx :: r =>
+  | 2%Z :: hcl :: buf :: hm :: mx :: r =>
     match dec_str r with
+    | Some (clraw, rr) =>
+    match dec_str rr with
     | Some (te, r0) =>
       match dec_str r0 with
       | Some (data, r1) =>
         match dec_list dec_nat_item r1 with
         | Some (sc, _) =>
           let maxb := if Z.eqb hm 0 then None else Some (Z.to_nat mx) in
-          enc_bres (body_read_env (stream_init data sc) (Z.to_nat buf) maxb cl te)
+          match body_read_raw (stream_init data sc) (Z.to_nat buf) maxb
+                              (if Z.eqb hcl 0 then None else Some clraw) te with
+          | Some r => enc_bres r
+          | None => [8%Z]
+          end
         | None => bad_input
         end
       | None => bad_input
       end
     | None => bad_input
     end
+    | None => bad_input
+    end
   | _ => bad_input
+  end.
+
+(* a sequence of requests (3 ; sub-inputs): every response is a function of its own request only *)
+Definition run_seq (subs : list (list Z)) : list (list Z) := map corr_C05_one subs.
+
+Definition corr_C05 (inp : list Z) : list Z :=
+  match inp with
+  | 3%Z :: r => flat_map (fun o => Z.of_nat (length o) :: o) (run_seq (dec_subs (length r) r))
+  | _ => corr_C05_one inp
   end.
